@@ -57,38 +57,83 @@ def go_replay(ctx, test, files, vin, vout, shards=SHARDS, timeout=1500):
     return rows, summ
 
 
-def replay_with_confirmation(ctx, test, files, header, lines, tag):
-    """Replay the configuration lines; re-run every configuration that showed a
-    disagreement alone, in a fresh process; return (rows of confirmed bad
-    entries, stats)."""
+def flag_sig(cfg):
+    """What a live server cannot change through the reconfiguration entry points the
+    harness drives (rule lists, custom rules, blocking mode, adding/removing the
+    persistent client): configurations with the same signature can follow each other
+    on ONE server."""
+    cl = dict(cfg["client"])
+    cl.pop("known")
+    return json.dumps([cfg["prot"], cfg["filt"], cfg["svc"], cfg["aaaaOff"], cfg["cache"], cl], sort_keys=True)
+
+
+def make_walks(cfgs, rng, kind, length=4, extra=()):
+    """Chain the configurations into walks of one live server: `length` different
+    configurations with the same flag signature (seeded order), then the first one
+    again ("... and back").  Any sequence is a behaviour of DnsPipeline!SpecHist
+    (Reconfigure may install any configuration), and its invariant HistVerdict says the
+    verdict table after a reconfiguration is the table of the current configuration."""
+    groups = {}
+    for c in cfgs:
+        groups.setdefault(flag_sig(c["cfg"]), []).append(c)
+    walks = []
+    for sig in sorted(groups):
+        g = groups[sig]
+        rng.shuffle(g)
+        for j in range(0, len(g), length):
+            chunk = g[j:j + length]
+            steps = chunk + ([chunk[0]] if len(chunk) > 1 else [])
+            walks.append({"kind": kind, "i": len(walks),
+                          "steps": [dict({"ci": c["i"], "cfg": c["cfg"], "tab": c["tab"]},
+                                         **{k: c[k] for k in extra if k in c}) for c in steps]})
+    return walks
+
+
+def replay_with_confirmation(ctx, test, files, header, walks, tag):
+    """Replay the walks; re-run every walk that showed a disagreement alone, in a
+    fresh process; return (rows of confirmed bad entries, stats)."""
     vin, vout = ctx.path(tag + "_in.ndjson"), ctx.path(tag + "_out.ndjson")
-    vlib.write_ndjson(vin, [header] + lines)
+    vlib.write_ndjson(vin, [header] + walks)
     rows, summ = go_replay(ctx, test, files, vin, vout)
-    stats = {"configs": sum(s["configs"] for s in summ), "evals": sum(s["evals"] for s in summ),
-             "udp": sum(s.get("udp", 0) for s in summ),
-             "flaky": sum(1 for r in rows if r.get("kind") == "flaky"),
-             "skipped": sum(1 for r in rows if r.get("kind") == "skip"),
+    skips = [r for r in rows if r.get("kind") == "skip"]
+    stats = {"walks": sum(s["walks"] for s in summ), "configs": sum(s["configs"] for s in summ),
+             "evals": sum(s["evals"] for s in summ), "udp": sum(s.get("udp", 0) for s in summ),
+             "reconfigurations": sum(s.get("reconfigurations", 0) for s in summ),
+             "flaky": 0, "skipped": sum(r.get("configs", 1) for r in skips),
              "samples": [r for r in rows if r.get("kind") == "sample"][:3]}
     bad = [r for r in rows if r.get("kind") == "bad"]
     confirmed = []
     if bad:
-        by_i = {l["i"]: l for l in lines}
-        ids = sorted({b["i"] for b in bad})[:200]
+        by_i = {l["i"]: l for l in walks}
+        ids = sorted({b["i"] for b in bad})[:100]
         vin2, vout2 = ctx.path(tag + "_in2.ndjson"), ctx.path(tag + "_out2.ndjson")
         vlib.write_ndjson(vin2, [header] + [by_i[i] for i in ids])
         rows2, _ = go_replay(ctx, test, files, vin2, vout2, shards=1)
-        again = {(r["i"], r["q"]) for r in rows2 if r.get("kind") == "bad"}
+        again = {(r["i"], r["s"], r["q"]) for r in rows2 if r.get("kind") == "bad"}
         for b in bad:
-            if (b["i"], b["q"]) in again:
-                b["vector"] = by_i[b["i"]]["cfg"]
+            if (b["i"], b["s"], b["q"]) in again:
+                w = by_i[b["i"]]
+                b["walk"] = dict(w, steps=w["steps"][:b["s"] + 1])
+                b["header"] = header
                 confirmed.append(b)
-        stats["unconfirmed"] = len(bad) - len(confirmed) if len(ids) == len({b["i"] for b in bad}) else None
-    if stats["skipped"] > max(5, len(lines) // 50):
-        raise vlib.Inconclusive("%d configurations could not be built: %s" % (
-            stats["skipped"], [r for r in rows if r.get("kind") == "skip"][:2]))
-    if stats["configs"] + stats["skipped"] != len(lines):
-        raise vlib.Inconclusive("replayed %d of %d configurations" % (stats["configs"], len(lines)))
+        stats["flaky"] = len({(b["i"], b["s"], b["q"]) for b in bad if b["i"] in ids} - again)
+    total = sum(len(w["steps"]) for w in walks)
+    if stats["skipped"] > max(5, total // 50):
+        raise vlib.Inconclusive("%d configurations could not be built/reconfigured: %s" % (stats["skipped"], skips[:2]))
+    if stats["configs"] + stats["skipped"] != total:
+        raise vlib.Inconclusive("replayed %d of %d configuration visits" % (stats["configs"], total))
     return confirmed, stats
+
+
+def replay_stored_walk(ctx, test, files, rec, tag):
+    """--replay of a direction-A record: walk the stored history again."""
+    w = dict(rec["walk"], i=rec["i"])
+    confirmed, st = replay_with_confirmation(ctx, test, files, rec["header"], [w], tag)
+    hits = [b for b in confirmed if (b["s"], b["q"]) == (rec["s"], rec["q"])]
+    print(json.dumps({"history": rec.get("history"), "expected": rec["want"],
+                      "observed": [b["got"] for b in hits] or "admissible",
+                      "concrete": [b["concrete"] for b in hits]}, indent=1))
+    return 1 if hits else 0
 
 
 def trace_validate(ctx, test, files, n_cfg, tag, only=None):
@@ -114,13 +159,13 @@ def trace_validate(ctx, test, files, n_cfg, tag, only=None):
         while rows[j]["ev"] != "cfg":
             j -= 1
         r = json.loads(json.dumps(rows[i]))
-        # a single corrupted field: the number of upstream exchanges flipped
-        r["obs"]["calls"] = 1 - r["obs"]["calls"]
+        # a single corrupted field: the number of upstream exchanges
+        r["obs"]["calls"] = r["obs"]["calls"] + 2
         r["corrupt"] = True
         rows.append(rows[j])
         rows.append(r)
         corrupt.append(len(rows))
-    slim = [{k: v for k, v in r.items() if k in ("ev", "cfg", "req", "ans", "obs")} for r in rows]
+    slim = [{k: v for k, v in r.items() if k in ("ev", "cfg", "req", "ans", "obs", "rep")} for r in rows]
     tfile = ctx.path(tag + "_trace_tlc.ndjson")
     vlib.write_ndjson(tfile, slim)
     r = ctx.tlc("TraceDnsPipeline", "TraceDnsPipeline.cfg", workers=1, timeout=900,
